@@ -29,7 +29,8 @@ type pfReg struct {
 }
 
 type pfCase struct {
-	Op   string  `json:"op"` // dump | prefix | min
+	ID   int32   `json:"id"`
+	Op   string  `json:"op"` // dump | prefix | min | tryfromid | newfile
 	Pre  string  `json:"pre"`
 	Tag  int     `json:"tag"` // index of the registration whose (obfuscated) identifier is inserted after Pre; -1 none
 	Post string  `json:"post"`
@@ -46,6 +47,7 @@ type pfEntry struct {
 }
 
 type pfObs struct {
+	NilPrefix bool `json:"nil_prefix"` // tryfromid: (nil, nil) came back
 	Table  []pfEntry `json:"table"`
 	Data   string    `json:"data"`
 	Out    string    `json:"out"`
@@ -136,6 +138,35 @@ func TestVerifC11Prefix(t *testing.T) {
 		var o pfObs
 		if c.Op == "dump" {
 			o.Table = table
+			res[i] = o
+			continue
+		}
+		if c.Op == "tryfromid" {
+			// what overridePrefix does with the result
+			o.Out, o.Detail = vGuard(10*time.Second, func() {
+				p, err := TryFromID(PrefixID(c.ID))
+				if err != nil {
+					o.ECode, o.Err = 1, err.Error()
+					return
+				}
+				o.NilPrefix = p == nil
+				_ = p.FlushPolicy()
+				_ = p.ID()
+				_ = p.Bytes()
+			})
+			res[i] = o
+			continue
+		}
+		if c.Op == "newfile" {
+			// a station configured with a prefix file path
+			o.Out, o.Detail = vGuard(10*time.Second, func() {
+				t2, err := Default([][32]byte{priv}, "/nonexistent/prefixes.conf")
+				if err != nil {
+					o.ECode, o.Err = 1, err.Error()
+					return
+				}
+				o.Used = len(t2.SupportedPrefixes)
+			})
 			res[i] = o
 			continue
 		}
